@@ -7,6 +7,7 @@ package zzverif
 import (
 	"fmt"
 	"strings"
+	"sync"
 	"testing"
 
 	"github.com/verily-src/fhirpath-go/fhirpath"
@@ -19,7 +20,8 @@ type c07Case struct {
 	N     int    `json:"n"`    // arity (fn)
 	Pos   int    `json:"pos"`  // -1 input / left operand; i = argument i / right operand (1)
 	Empty string `json:"empty"`
-	Other string `json:"other"` // the well-typed partner operand (operators)
+	Other string `json:"other"`          // the well-typed partner operand (operators)
+	Recv  string `json:"recv,omitempty"` // fn: another receiver for which the well-typed call evaluates to a value
 }
 
 var c07Empties = []string{"{}", "Patient.photo", "%none", "%nilcoll"}
@@ -60,6 +62,13 @@ func c07Enum(yield func(c07Case)) {
 			for n := f.Min; n <= f.Max; n++ {
 				for pos := -1; pos < n; pos++ {
 					yield(c07Case{Kind: "fn", Name: f.Name, N: n, Pos: pos, Empty: e})
+				}
+				// the same argument positions under every other receiver (other type, other
+				// cardinality) for which the call with well-typed arguments yields a value
+				for _, r := range c07AltReceivers(f.Name, n) {
+					for pos := 0; pos < n; pos++ {
+						yield(c07Case{Kind: "fn", Name: f.Name, N: n, Pos: pos, Empty: e, Recv: r})
+					}
 				}
 			}
 		}
@@ -104,12 +113,51 @@ func c07Source(c c07Case) string {
 		args = append(args, "1")
 	}
 	args = args[:c.N]
+	if c.Recv != "" {
+		recv = c.Recv
+	}
 	if c.Pos == -1 {
 		recv = e
-	} else {
+	} else if c.Pos >= 0 {
 		args[c.Pos] = e
 	}
 	return recv + "." + c.Name + "(" + strings.Join(args, ", ") + ")"
+}
+
+var c07RecvCands = []string{"1", "(0 - 3)", "2147483647", "1.5", "0.0", "'abc'", "'a'", "''", "true", "@2020-01-01", "@2020-01-01T10:00:00Z", "@T10:00", "5 'mg'", "3 days",
+	"%ints", "%ints.take(1)", "%strs", "%strs.take(1)", "%strs.take(2)", "%names", "%names.take(1)", "%name", "%pat", "%bools", "%bools.take(1)",
+	"Patient.active", "Patient.multipleBirth", "Patient.telecom.rank", "Patient.telecom.rank.first()", "Patient.birthDate", "Patient.name.given", "Patient.name.given.first()", "Patient.gender"}
+
+var (
+	c07AltMu    sync.Mutex
+	c07AltCache = map[string][]string{}
+)
+
+// c07AltReceivers: the candidate receivers (other than the M-FN one) under which
+// name(args…) with the well-typed arguments evaluates to a non-empty value.
+func c07AltReceivers(name string, n int) []string {
+	key := fmt.Sprintf("%s/%d", name, n)
+	c07AltMu.Lock()
+	defer c07AltMu.Unlock()
+	if r, ok := c07AltCache[key]; ok {
+		return r
+	}
+	var out []string
+	sp, ok := fnSpecByName[name]
+	if ok && n > 0 && !placeholderFuncs()[name] {
+		vars := fnVars()
+		for _, r := range c07RecvCands {
+			if r == sp.Recv {
+				continue
+			}
+			o := evalWith(c07Source(c07Case{Kind: "fn", Name: name, N: n, Pos: -2, Recv: r}), fixtureInput(fixturePatient()), vars, fhirpath.CompileOption(compopts.WithExperimentalFuncs()))
+			if !o.failed() && len(o.Coll) > 0 {
+				out = append(out, r)
+			}
+		}
+	}
+	c07AltCache[key] = out
+	return out
 }
 
 func c07Run(ctx *Ctx, c c07Case) {
@@ -117,7 +165,7 @@ func c07Run(ctx *Ctx, c c07Case) {
 	vars := fnVars()
 	vars["nilcoll"] = collOf(true, nil)
 	out := evalWith(src, fixtureInput(fixturePatient()), vars, fhirpath.CompileOption(compopts.WithExperimentalFuncs()))
-	key := fmt.Sprintf("%s|%s|%d|%d|%s|%s", c.Kind, c.Name, c.N, c.Pos, c.Empty, c.Other)
+	key := fmt.Sprintf("%s|%s|%d|%d|%s|%s|%s", c.Kind, c.Name, c.N, c.Pos, c.Empty, c.Other, c.Recv)
 	compiled := out.CompileErr == nil
 	cls := "position:input"
 	if c.Pos >= 0 {
@@ -125,6 +173,9 @@ func c07Run(ctx *Ctx, c c07Case) {
 	}
 	ctx.Eval(key, compiled, "kind:"+c.Kind, cls, "delivery:"+c.Empty, "outcome:"+out.kind())
 	where := fmt.Sprintf("%s %s/%d pos=%d", c.Kind, c.Name, c.N, c.Pos)
+	if c.Recv != "" {
+		where += " [other receiver]"
+	}
 	fail := func(what string) {
 		ctx.Fail(fmt.Sprintf("empty %s: %s", where, what), fmt.Sprintf("%s (empty delivered as %s) → %s", src, c.Empty, out))
 	}
@@ -194,7 +245,7 @@ func c07Run(ctx *Ctx, c c07Case) {
 
 func TestC07(t *testing.T) {
 	r := newRec("C07",
-		"exhaustive: {+ - * / div mod = != < <= > >= & is as unary± indexer} × operand position × partner operands, and every name of funcs.Clone() ∪ experimental table × every arity Compile accepts × {input, each argument position}; the empty collection is delivered as the literal {}, as an absent element path (Patient.photo), as an empty environment variable and as a nil collection variable; the other positions hold the well-typed operands of M-FN; non-trivial = the program compiled; every tuple is distinct",
+		"exhaustive: {+ - * / div mod = != < <= > >= & is as unary± indexer} × operand position × partner operands, and every name of funcs.Clone() ∪ experimental table × every arity Compile accepts × {input, each argument position}; the empty collection is delivered as the literal {}, as an absent element path (Patient.photo), as an empty environment variable and as a nil collection variable; the other positions hold the well-typed operands of M-FN, and every argument position is also tried under each of 33 other receivers (other types, other cardinalities, FHIR elements) for which the call with well-typed arguments yields a value; non-trivial = the program compiled; every tuple is distinct",
 		"M-FN (harness/common_fn_test.go) classifies each argument position as single-value / criteria / collection from the N1 signatures", "aggregates listed by the property (exists, empty, count, all, allTrue/anyTrue/allFalse/anyFalse, isDistinct, iif, now/today/timeOfDay) are executed but not asserted on empty input")
 	runProperty(t, r, Stage[c07Case]{Name: "matrix", Enum: c07Enum, Run: c07Run})
 }
